@@ -13,12 +13,20 @@ def run(ctx, replay):
     ctx.model_check("MCWALQueue", "MCWALQueue.cfg" if thorough else "MCWALQueue_quick.cfg", coverage=thorough, timeout=1800)
     # sensitivity: a reloaded group that keeps its old consumed position (pre-repair) must violate GroupOrder
     ctx.model_check("MCWALQueue", "MCWALQueue_devclamp.cfg", expect="violation", timeout=900)
+    # sensitivity: "the group has stored positions" decided by its directory instead of its meta page file must violate
+    # GroupOrder (a directory left by a failed / killed creation: positions read from a zero-filled page)
+    ctx.model_check("MCWALQueue", "MCWALQueue_devmeta.cfg", expect="violation", timeout=900)
     if thorough:
-        tr = walcommon.run_wal(ctx, ["--histories", 400, "--ops", 120, "--images", 10], "g")
+        tr = walcommon.run_wal(ctx, ["--histories", 400, "--ops", 120, "--images", 10, "--grouptail"], "g")
+        walcommon.run_wal(ctx, ["--histories", 0, "--groupfail", 12], "groupfail")
         walcommon.run_wal(ctx, ["--histories", 0, "--big", 6], "big")
         walcommon.run_wal(ctx, ["--histories", 0, "--groupconc", 60], "groupconc")
     else:
-        tr = walcommon.run_wal(ctx, ["--histories", 60, "--ops", 80, "--images", 2], "g")
+        tr = walcommon.run_wal(ctx, ["--histories", 60, "--ops", 80, "--images", 2, "--grouptail"], "g")
+        # group creation disturbed between its two durable steps (mkdir by the page factory / meta page file): the page
+        # acquisition fails and the call is retried in the same process, or the queue is reopened on the directory left
+        # behind; imaged after every store (kill between mkdir and page file), recovered groups consume / ack / Sync / GC
+        walcommon.run_wal(ctx, ["--histories", 0, "--groupfail", 2], "groupfail")
         walcommon.run_wal(ctx, ["--histories", 0, "--big", 1], "big")
         # one thread consumes while another one acknowledges on the same group, gated at every group-meta store
         walcommon.run_wal(ctx, ["--histories", 0, "--groupconc", 10], "groupconc")
@@ -37,6 +45,7 @@ def run(ctx, replay):
         return None
     vcore.corrupt_selftest(ctx, "WALQueueTrace", "WALQueueTrace.cfg", tr, bump_ack, "a group's acknowledged position +1")
     ctx.assumptions += [
+        "creation of a consumer group = mkdir (page factory) then meta page file + its first two stores as ONE step: kill / fault points between mkdir and page file are covered, a kill between the creation of the zero-filled page file and its two first stores is not",
         "operations of one history are issued sequentially, except the groupconc histories: one consuming and one acknowledging thread on one group, gated at every store into the group's meta page (the calls are serialised by the group's lock in the code; the Op event of a call is emitted at its first store)",
         "explicit index resets: only the forward reset is part of the model (the property excludes resets)",
     ]
